@@ -103,7 +103,8 @@ static int g_verbose;
 static const char* g_mode = "?";
 static uint64_t g_seed;
 static unsigned long g_case;
-static unsigned long g_nviol;
+static unsigned long g_nviol, g_nviol_other;
+static const char* g_own_prop; // VERIF_PROP: the property this run decides (caps count its violations only)
 static int g_case_violated;
 
 static void violation(const char* props, const char* key, const char* fmt, ...)
@@ -113,8 +114,11 @@ static void violation(const char* props, const char* key, const char* fmt, ...)
     va_start(ap, fmt);
     vsnprintf(msg, sizeof msg, fmt, ap);
     va_end(ap);
-    ++g_nviol;
-    g_case_violated = 1;
+    g_case_violated = 1; // the model may have lost step with the channel: the case ends here in any case
+    if (g_own_prop && !strstr(props, g_own_prop)) {
+        // belongs to another property's check: reported (bounded) but not counted towards this worker's cap
+        if (++g_nviol_other > 60) return;
+    } else ++g_nviol;
     printf("V {\"props\":\"%s\",\"key\":\"%s\",\"mode\":\"%s\",\"seed\":%llu,\"case\":%lu,\"msg\":",
            props, key, g_mode, (unsigned long long)g_seed, g_case);
     vjson_str(stdout, msg);
@@ -409,6 +413,13 @@ static void reader_check_slice(int i, struct slice s, uint64_t S_at_call)
         return;
     }
     size_t a = (size_t)(s.beg - g_ch.data);
+    if (g_w.mapped && g_w.n) {
+        // the same forbidden state as "the writer is handed memory a reader holds", reached from the other side
+        size_t wa = (size_t)(g_w.p - g_ch.data);
+        if (a < wa + g_w.n && wa < a + len)
+            violation("C02,C01", "read-slice-overlaps-writer-region", "reader %d was handed [%zu,%zu) while the writer holds the uncommitted region [%zu,%zu)",
+                      i, a, a + len, wa, wa + g_w.n);
+    }
     if (!r->joined) {
         // join boundary: latest write boundary <= S_at_call whose address is the slice start
         int found = 0;
@@ -1219,6 +1230,7 @@ int main(int argc, char** argv)
 {
     if (argc < 5) { fprintf(stderr, "usage: %s modeA|window|stress seed first n [ops] [-v]\n", argv[0]); return 2; }
     g_mode = argv[1];
+    g_own_prop = getenv("VERIF_PROP");
     g_seed = strtoull(argv[2], 0, 10);
     unsigned long first = strtoul(argv[3], 0, 10), n = strtoul(argv[4], 0, 10);
     unsigned long ops = 2000;
